@@ -1344,7 +1344,7 @@ func (s *Spec) c17(e *Exec, t, r []string) bool {
 				s.switched = true
 			}
 		}
-		if len(t) > 1 && (strings.HasPrefix(t[1], "ext=") || strings.HasPrefix(t[1], "cons=")) && s.variant <= 1 {
+		if len(t) > 1 && (strings.HasPrefix(t[1], "ext=") || strings.HasPrefix(t[1], "cons=")) && s.variant <= 1 && !s.outside {
 			want := "fielddesc"
 			if strings.HasPrefix(t[1], "ext=") {
 				want = "extension"
